@@ -237,8 +237,8 @@ def _make(name: str, cd: dict, classes: dict[str, type], placeholder: bool) -> t
             {"key_transform_with_load": {w: p for w, p in pairs}, "key_transform_with_dump": {p: w for w, p in pairs}},
         )
     # `pyname`: the class's __qualname__ (same module for all) - two table entries may share it
-    pyname = cd.get("pyname", name)
-    if "extends" in cd:
+    pyname = cd.get("pyname") or name
+    if cd.get("extends"):
         # a subclass: OWN fields only (a field named like an inherited one overrides it), keyword-only so that a
         # required field may follow inherited defaults; optionally a field-less mixin among the bases
         bases: tuple = (classes[cd["extends"]],)
@@ -258,7 +258,7 @@ def build_classes(table: dict) -> dict[str, type]:
     while pending:
         progressed = False
         for name, cd in list(pending.items()):
-            deps = {cd["extends"]} if "extends" in cd else set()
+            deps = {cd["extends"]} if cd.get("extends") else set()
             for f in cd["fields"]:
                 deps |= class_refs(f["ty"])
             if deps - set(classes):
